@@ -66,7 +66,8 @@ def run(prop, tier, seed):
     ctx = Ctx("C07", tier, seed)
     rng = random.Random(seed + 7)
     quick = tier == "quick"
-    plan = [("UnitSquare", 2, 2, 2), ("PiSquare", 1, 2, 2), ("LShape", 1, 2, 2), ("Circle", 4, 2, 2), ("UnitInterval", 2, 2, 2)]
+    plan = [("UnitSquare", 2, 2, 2), ("PiSquare", 1, 2, 2), ("LShape", 1, 2, 2), ("Circle", 4, 2, 2), ("UnitInterval", 2, 2, 2),
+            ("ThinRect", 0, 2, 2)]
     nel = 10 if quick else 60
     stats, total, cells, samples = [], 0, set(), []
     worst = {}
@@ -117,6 +118,16 @@ def run(prop, tier, seed):
             for f in (1e-4, 1e-3, 5e-3, 0.01, 0.03, 0.3, 1.0, 2.7):
                 pts += [xb * K + int(f * hx * K), xa * K - int(f * hx * K)]
             pts += [0, LK] + [int(rng.uniform(0, 1) * LK) for _ in range(8)]       # points far along the curve (possibly near in the plane)
+            if not rc.circle:
+                # the points of the other pieces nearest in the plane to the element's mid point (orthogonal projections)
+                pe = rc.piece_of(xra, xrb)
+                mid = rc.point(np.array([0.5 * (xra + xrb)]), pe)[:, 0]
+                for j in range(rc.npieces):
+                    if j == pe:
+                        continue
+                    ln = rc.starts[j + 1] - rc.starts[j]
+                    sj = float(np.clip(np.dot(mid - rc.verts[j], rc.dirs[j]), 0.0, ln))
+                    pts.append(int(round((rc.starts[j] + sj) / sh.unit * sh.U * K)))
             pp = []
             for x in pts:
                 if sh.closed:
